@@ -436,6 +436,90 @@ Section GroupByProofs.
   Qed.
 End GroupByProofs.
 
+(* ------------------------------------------------------------------ comparators *)
+Section CmpFacts.
+  Variable K : Type.
+  Variable c1 : K -> K -> comparison.
+  Hypothesis c1_refl : forall a, c1 a a = Eq.
+  Hypothesis c1_antisym : forall a b, c1 b a = CompOpp (c1 a b).
+  Hypothesis c1_trans : forall a b c, c1 a b <> Gt -> c1 b c <> Gt -> c1 a c <> Gt.
+
+  Lemma pre_eq_sym a b : c1 a b = Eq -> c1 b a = Eq.
+  Proof. intros H. rewrite c1_antisym, H. reflexivity. Qed.
+
+  Lemma pre_lt_gt a b : c1 a b = Lt -> c1 b a = Gt.
+  Proof. intros H. rewrite c1_antisym, H. reflexivity. Qed.
+
+  Lemma pre_lt_le_trans a b c : c1 a b = Lt -> c1 b c <> Gt -> c1 a c = Lt.
+  Proof.
+    intros H1 H2.
+    assert (Hac : c1 a c <> Gt) by (apply (c1_trans a b c); [rewrite H1; discriminate | exact H2]).
+    destruct (c1 a c) eqn:C; [|reflexivity|exfalso; apply Hac; reflexivity].
+    exfalso. assert (Hba : c1 b a <> Gt).
+    { apply (c1_trans b c a); [exact H2 | rewrite (pre_eq_sym _ _ C); discriminate]. }
+    apply Hba. apply pre_lt_gt. exact H1.
+  Qed.
+
+  Lemma pre_le_lt_trans a b c : c1 a b <> Gt -> c1 b c = Lt -> c1 a c = Lt.
+  Proof.
+    intros H1 H2.
+    assert (Hac : c1 a c <> Gt) by (apply (c1_trans a b c); [exact H1 | rewrite H2; discriminate]).
+    destruct (c1 a c) eqn:C; [|reflexivity|exfalso; apply Hac; reflexivity].
+    exfalso. assert (Hcb : c1 c b <> Gt).
+    { apply (c1_trans c a b); [rewrite (pre_eq_sym _ _ C); discriminate | exact H1]. }
+    apply Hcb. apply pre_lt_gt. exact H2.
+  Qed.
+
+  Lemma pre_compat_l a b c : c1 a b = Eq -> c1 a c = c1 b c.
+  Proof.
+    intros E. pose proof (pre_eq_sym _ _ E) as E'.
+    assert (Lab : c1 a b <> Gt) by (rewrite E; discriminate).
+    assert (Lba : c1 b a <> Gt) by (rewrite E'; discriminate).
+    destruct (c1 b c) eqn:C.
+    - destruct (c1 a c) eqn:D; [reflexivity| |].
+      + exfalso. assert (X : c1 a b = Lt).
+        { apply (pre_lt_le_trans a c b D). rewrite (pre_eq_sym _ _ C). discriminate. }
+        congruence.
+      + exfalso. apply (c1_trans a b c Lab); [rewrite C; discriminate | exact D].
+    - apply (pre_le_lt_trans a b c Lab C).
+    - destruct (c1 a c) eqn:D; [| |reflexivity]; exfalso.
+      + apply (c1_trans b a c Lba); [rewrite D; discriminate | exact C].
+      + apply (c1_trans b a c Lba); [rewrite D; discriminate | exact C].
+  Qed.
+
+  Lemma pre_compat_r a b c : c1 b c = Eq -> c1 a b = c1 a c.
+  Proof.
+    intros E. rewrite (c1_antisym b a), (c1_antisym c a). f_equal. apply pre_compat_l. exact E.
+  Qed.
+
+  (* lexicographic refinement of a total preorder by a second one *)
+  Variable c2 : K -> K -> comparison.
+  Hypothesis c2_refl : forall a, c2 a a = Eq.
+  Hypothesis c2_antisym : forall a b, c2 b a = CompOpp (c2 a b).
+  Hypothesis c2_trans : forall a b c, c2 a b <> Gt -> c2 b c <> Gt -> c2 a c <> Gt.
+
+  Definition lexc (a b : K) : comparison := match c1 a b with Eq => c2 a b | c => c end.
+
+  Lemma lexc_refl a : lexc a a = Eq.
+  Proof. unfold lexc. rewrite c1_refl. apply c2_refl. Qed.
+
+  Lemma lexc_antisym a b : lexc b a = CompOpp (lexc a b).
+  Proof. unfold lexc. rewrite (c1_antisym a b). destruct (c1 a b); simpl; auto. Qed.
+
+  Lemma lexc_trans a b c : lexc a b <> Gt -> lexc b c <> Gt -> lexc a c <> Gt.
+  Proof.
+    unfold lexc. intros H1 H2.
+    destruct (c1 a b) eqn:C1.
+    - rewrite (pre_compat_l a b c C1).
+      destruct (c1 b c) eqn:C2; [eapply c2_trans; eassumption | discriminate | congruence].
+    - destruct (c1 b c) eqn:C2.
+      + rewrite <- (pre_compat_r a b c C2), C1. discriminate.
+      + rewrite (pre_lt_le_trans a b c C1); [discriminate | rewrite C2; discriminate].
+      + congruence.
+    - congruence.
+  Qed.
+End CmpFacts.
+
 (* ------------------------------------------------------------------ instance: keys *)
 Lemma atom_eqb_eq a b : atom_eqb a b = true <-> a = b.
 Proof.
@@ -524,6 +608,103 @@ Proof.
   - congruence.
 Qed.
 
+(* ---- the identity tie-break and the spill comparator *)
+Lemma atom_id_cmp_eq a b : atom_id_cmp a b = Eq -> a = b.
+Proof.
+  destruct a, b; simpl; intros H; try discriminate; try reflexivity.
+  - destruct (N.compare_spec ty ty0); try discriminate. apply Z.compare_eq in H. congruence.
+  - apply bytes_cmp_eq in H. congruence.
+  - apply N.compare_eq in H. congruence.
+Qed.
+
+Lemma atom_id_cmp_refl a : atom_id_cmp a a = Eq.
+Proof.
+  destruct a; simpl; try reflexivity.
+  - rewrite N.compare_refl. apply Z.compare_refl.
+  - apply bytes_cmp_refl.
+  - apply N.compare_refl.
+Qed.
+
+Lemma atom_id_cmp_antisym a b : atom_id_cmp b a = CompOpp (atom_id_cmp a b).
+Proof.
+  destruct a, b; simpl; try reflexivity.
+  - rewrite (N.compare_antisym ty ty0). destruct (N.compare ty ty0); simpl; auto. apply Z.compare_antisym.
+  - apply bytes_cmp_antisym.
+  - apply N.compare_antisym.
+Qed.
+
+Lemma atom_id_cmp_trans a b c :
+  atom_id_cmp a b <> Gt -> atom_id_cmp b c <> Gt -> atom_id_cmp a c <> Gt.
+Proof.
+  destruct a, b, c; simpl; intros H1 H2; try discriminate; try congruence;
+    try (exfalso; apply H1; reflexivity); try (exfalso; apply H2; reflexivity).
+  - destruct (N.compare_spec ty ty0), (N.compare_spec ty0 ty1), (N.compare_spec ty ty1);
+      subst; try lia; try congruence; try discriminate.
+    destruct (Z.compare_spec v v0), (Z.compare_spec v0 v1), (Z.compare_spec v v1); try congruence; lia.
+  - eapply bytes_cmp_le_trans; eassumption.
+  - destruct (N.compare_spec ty ty0), (N.compare_spec ty0 ty1), (N.compare_spec ty ty1); try congruence; lia.
+Qed.
+
+Lemma key_id_cmp_eq a : forall b, key_id_cmp a b = Eq -> a = b.
+Proof.
+  induction a as [|x a IH]; destruct b as [|y b]; simpl; intros H; try discriminate; [reflexivity|].
+  destruct (atom_id_cmp x y) eqn:C; try discriminate.
+  apply atom_id_cmp_eq in C. subst. f_equal. apply IH. exact H.
+Qed.
+
+Lemma key_id_cmp_refl a : key_id_cmp a a = Eq.
+Proof. induction a as [|x a IH]; simpl; [reflexivity|]. rewrite atom_id_cmp_refl. exact IH. Qed.
+
+Lemma key_id_cmp_antisym a : forall b, key_id_cmp b a = CompOpp (key_id_cmp a b).
+Proof.
+  induction a as [|x a IH]; destruct b as [|y b]; simpl; try reflexivity.
+  rewrite (atom_id_cmp_antisym x y). destruct (atom_id_cmp x y); simpl; auto.
+Qed.
+
+Lemma key_id_cmp_trans a : forall b c,
+  key_id_cmp a b <> Gt -> key_id_cmp b c <> Gt -> key_id_cmp a c <> Gt.
+Proof.
+  induction a as [|x a IH]; destruct b as [|y b]; destruct c as [|z c]; simpl; intros H1 H2;
+    try discriminate; try congruence.
+  destruct (atom_id_cmp x y) eqn:C1.
+  - apply atom_id_cmp_eq in C1. subst y.
+    destruct (atom_id_cmp x z) eqn:C2; [eapply IH; eassumption | discriminate | congruence].
+  - destruct (atom_id_cmp y z) eqn:C2.
+    + apply atom_id_cmp_eq in C2. subst z. rewrite C1. discriminate.
+    + assert (T : atom_id_cmp x z = Lt).
+      { eapply pre_lt_le_trans; try exact atom_id_cmp_antisym; try exact atom_id_cmp_trans;
+          [exact C1 | rewrite C2; discriminate]. }
+      rewrite T. discriminate.
+    + congruence.
+  - congruence.
+Qed.
+
+Lemma spill_cmp_lexc a b : spill_cmp a b = lexc key key_cmp key_id_cmp a b.
+Proof. reflexivity. Qed.
+
+Ltac c10_cmp :=
+  first [exact key_cmp_refl | exact key_id_cmp_refl
+        | exact (fun a b => key_cmp_antisym a b) | exact (fun a b => key_id_cmp_antisym a b)
+        | exact (fun a b c => key_cmp_trans a b c) | exact (fun a b c => key_id_cmp_trans a b c)].
+
+Lemma spill_cmp_refl a : spill_cmp a a = Eq.
+Proof. apply lexc_refl; c10_cmp. Qed.
+
+Lemma spill_cmp_antisym a b : spill_cmp b a = CompOpp (spill_cmp a b).
+Proof. apply lexc_antisym; c10_cmp. Qed.
+
+Lemma spill_cmp_trans a b c : spill_cmp a b <> Gt -> spill_cmp b c <> Gt -> spill_cmp a c <> Gt.
+Proof. apply lexc_trans; c10_cmp. Qed.
+
+(* keys that the spill comparator cannot tell apart are identical *)
+Lemma spill_cmp_eq a b : spill_cmp a b = Eq -> a = b.
+Proof.
+  unfold spill_cmp. destruct (key_cmp a b); try discriminate. apply key_id_cmp_eq.
+Qed.
+
+Lemma spill_cmp_faithful (xs : list (key * st)) : cmp_faithful spill_cmp xs.
+Proof. intros a b _ _. apply spill_cmp_eq. Qed.
+
 (* ------------------------------------------------------------------ instance: aggregates *)
 Lemma zres_op_assoc f (Hf : forall a b c, f a (f b c) = f (f a b) c) a b c :
   zres_op f a (zres_op f b c) = zres_op f (zres_op f a b) c.
@@ -601,56 +782,64 @@ Proof.
 Qed.
 
 Ltac c10_inst :=
-  first [exact key_eqb_eq | exact key_cmp_refl | exact (fun a b => key_cmp_antisym a b)
+  first [exact key_eqb_eq | exact spill_cmp_refl | exact (fun a b => spill_cmp_antisym a b)
+        | exact (fun a b c => spill_cmp_trans a b c)
+        | exact key_cmp_refl | exact (fun a b => key_cmp_antisym a b)
         | exact (fun a b c => key_cmp_trans a b c) | exact st_op_assoc | exact st_op_comm | exact st_op_e].
 
+(* Full strength: the spill comparator tells apart any two distinct keys, so no
+   guard on the input is needed. *)
 Theorem groupby_model_correct (limit : N) (xs : list rec_in) :
-  cmp_faithful key_cmp (to_rows xs) ->
   Permutation (groupby_model limit xs) (naive_groupby xs).
 Proof.
-  intros F. rewrite naive_is_spec. unfold groupby_model.
-  apply groupby_correct; try c10_inst. exact F.
+  rewrite naive_is_spec. unfold groupby_model.
+  apply groupby_correct; try c10_inst. apply spill_cmp_faithful.
 Qed.
 
 Lemma to_rows_perm xs ys : Permutation xs ys -> Permutation (to_rows xs) (to_rows ys).
 Proof. apply Permutation_map. Qed.
 
 Theorem groupby_model_order_limit_independent (l1 l2 : N) (xs ys : list rec_in) :
-  Permutation xs ys -> cmp_faithful key_cmp (to_rows xs) ->
+  Permutation xs ys ->
   Permutation (groupby_model l1 xs) (groupby_model l2 ys).
 Proof.
-  intros P F. unfold groupby_model.
-  apply groupby_order_limit_independent; try c10_inst; [apply to_rows_perm, P | exact F].
+  intros P. unfold groupby_model.
+  apply groupby_order_limit_independent; try c10_inst; [apply to_rows_perm, P | apply spill_cmp_faithful].
 Qed.
 
-(* The guard cannot be dropped: 1:int64 and 1:uint64 are distinct keys that compare
-   equal; with limit 1 the spill path merges them (observed on the real code too). *)
+(* Why the tie-break is needed: with the value comparison alone (the operator
+   before the fix) 1:int64 and 1:uint64, which compare equal, are merged at limit 1. *)
 Definition refute_input : list rec_in :=
   [([ANum 0 1], AvInt 1, BvMissing); ([ANum 1 1], AvInt 1, BvMissing)].
 
-Theorem groupby_spill_refuted :
-  exists limit xs, ~ Permutation (groupby_model limit xs) (naive_groupby xs).
-Proof.
-  exists 1%N, refute_input. intros P. apply Permutation_length in P. vm_compute in P. discriminate.
-Qed.
+Example value_order_alone_merges_distinct_keys :
+  ~ Permutation (groupby_model_value_order 1 refute_input) (naive_groupby refute_input).
+Proof. intros P. apply Permutation_length in P. vm_compute in P. discriminate. Qed.
 
-(* and without spilling the same input is grouped correctly *)
-Example groupby_nospill_ok : groupby_model 0 refute_input = naive_groupby refute_input.
+Example tie_break_separates_them :
+  List.length (groupby_model 1 refute_input) = 2%nat.
 Proof. vm_compute. reflexivity. Qed.
 
-(* non-vacuity of the guard: a spilling run on faithful keys *)
-Definition sample_input : list rec_in :=
-  [([ANum 0 2; AStr [97%N]], AvInt 3, BvBool true); ([ANum 0 1; ANull 0], AvNull, BvNull);
-   ([ANum 0 2; AStr [97%N]], AvInt (-1), BvBool false); ([AStr [98%N]; AMissing], AvMissing, BvMissing);
-   ([ANum 0 1; ANull 0], AvInt 5, BvMissing)].
+(* the guarded statement still holds for the value comparison alone *)
+Theorem groupby_value_order_guarded (limit : N) (xs : list rec_in) :
+  cmp_faithful key_cmp (to_rows xs) ->
+  Permutation (groupby_model_value_order limit xs) (naive_groupby xs).
+Proof.
+  intros F. rewrite naive_is_spec. unfold groupby_model_value_order.
+  apply groupby_correct; try c10_inst. exact F.
+Qed.
 
-Example sample_faithful : cmp_faithful key_cmp (to_rows sample_input).
-Proof. apply (cmp_faithfulb_ok _ _ key_eqb key_eqb_eq). vm_compute. reflexivity. Qed.
+(* a spilling run over keys that compare equal pairwise but are all distinct *)
+Definition sample_input : list rec_in :=
+  [([ANum 0 1; ANull 0], AvInt 3, BvBool true); ([ANum 1 1; ANull 4], AvNull, BvNull);
+   ([ANum 3 1; AMissing], AvInt (-1), BvBool false); ([ANum 0 1; ANull 0], AvMissing, BvMissing);
+   ([ANum 1 1; ANull 4], AvInt 5, BvMissing)].
 
 Example sample_spills_and_agrees :
-  List.length (snd (consume key_eqb key_cmp st_op st0 1 (to_rows sample_input) [] [])) = 4%nat /\
+  List.length (snd (consume key_eqb spill_cmp st_op st0 1 (to_rows sample_input) [] [])) = 4%nat /\
+  List.length (groupby_model 1 sample_input) = 3%nat /\
   Permutation (groupby_model 1 sample_input) (naive_groupby sample_input).
-Proof. split; [vm_compute; reflexivity | apply groupby_model_correct, sample_faithful]. Qed.
+Proof. split; [vm_compute; reflexivity | split; [vm_compute; reflexivity | apply groupby_model_correct]]. Qed.
 
 (* partial results compose for every modelled aggregate at once: consuming the
    partial results (ResultAsPartial = the state) of any split = consuming everything *)
